@@ -211,6 +211,20 @@ CHECKS = {
         note=TB + "; exhaustive exploration is limited to one pin (two in the thorough tier); larger instances are validated executions.",
         technique="TLA+ composition of specs + TLC model checking; TLC trace validation of the real peripheral",
         design="5 (C16)"),
+    "C01": dict(
+        text=("Design level: on every tree reachable in MemoryMap_MC whose windows sit at multiples of their size, "
+              "TLC checks that the pattern view (what the generators emit) decodes every address to the same "
+              "resource as the map view, and that dropping the precondition yields a counterexample. Binding: "
+              "seeded random hierarchies of real components (Wishbone decoder over SRAMs and Wishbone-CSR bridges "
+              "over nested CSR decoders over multiplexers, csr.Bridge, event monitors, GPIO) are assembled; for "
+              "EVERY word address of the root, read and write, full and single-granule selects, one transfer is "
+              "simulated and its complete effect (ack or never, latency, read lanes, every register strobe of "
+              "every leaf in order with data, SRAM words) is validated by TLC against specs/Soc.tla, whose "
+              "expectation is derived from the memory maps alone with MemoryMap.tla's arithmetic and must also "
+              "equal the real root map's all_resources()/decode_address()."),
+        note=TB + "; 'never acknowledged' is a bounded wait of 4*(ratio+2) cycles; hierarchies are seeded samples (20 quick / 120 thorough), each swept over its whole root address space.",
+        technique="TLA+ spec (map view vs pattern view) + TLC model checking; TLC validation of exhaustive per-address transfers on real hierarchies",
+        design="5 (C01)"),
 }
 
 PENDING = "check not built yet in this round; see DESIGN.md section 13 for the build order"
